@@ -279,3 +279,26 @@ def _(v):
         M = np.linalg.lstsq(A0.T, np.array(A, dtype=float).T, rcond=None)[0].T
         return np.allclose(M.dot(A0), np.array(A, dtype=float), atol=1e-12) and np.allclose(M.dot(np.log(Ks)), np.log(np.array(ks, dtype=float)), atol=1e-12)
     v.prove("reduced_constants_follow_the_constants_given", consistent(A1, k1, [2.0, 3.0]) and consistent(A2, k2, [5.0, 7.0]) and list(plain1) == [2.0, 3.0], detail="%r %r" % (k1, k2))
+
+
+@harness("C07", "reported_element_totals", functions=["chempy.equilibria:EqSystem.composition_conservation"], kind="data")
+def _(v):
+    """the conservation report of an equilibrium system returns the element/charge totals of the state and of the initial state as they are,
+    B c and B c0 in the order of the composition keys: a state that misses conservation by a trace amount (3e-13 of a 4e-13 M total) is reported
+    with different totals, not rounded into agreement"""
+    import numpy as np
+    from chempy.chemistry import Equilibrium
+    from chempy.equilibria import EqSystem
+    from chempy.chemistry import Species
+    subs = [Species.from_formula(k) for k in ("H2O", "H+", "OH-", "NH4+", "NH3")]
+    es = EqSystem([Equilibrium({"H2O": 1}, {"H+": 1, "OH-": 1}, 1e-14 / 55.4), Equilibrium({"NH4+": 1}, {"H+": 1, "NH3": 1}, 10 ** -9.26)], subs)
+    c0 = np.array([55.4, 1e-7, 1e-7, 3e-13, 1e-13])
+    c = c0 + np.array([0.0, 3e-13, 0.0, -2e-13, -1e-13])            # nitrogen 4e-13 -> 1e-13, charge +1e-13
+    keys, tot, tot0 = es.composition_conservation(c, c0)
+    B, bkeys = es.composition_balance_vectors()
+    B = np.array(B, dtype=float)
+    v.prove("totals_are_B_times_the_state", list(keys) == list(bkeys) and np.array_equal(np.asarray(tot, dtype=float), B.dot(c)) and np.array_equal(np.asarray(tot0, dtype=float), B.dot(c0)),
+            detail=repr((tot, tot0)))
+    iN, iq = list(keys).index(7), list(keys).index(0)
+    v.prove("trace_violations_stay_visible", abs((tot[iN] - tot0[iN]) + 3e-13) < 1e-20 + 1e-3 * 3e-13 and abs((tot[iq] - tot0[iq]) - 1e-13) < 2e-16 * 1e-7 + 1e-3 * 1e-13,
+            detail=repr((tot[iN] - tot0[iN], tot[iq] - tot0[iq])))
